@@ -174,6 +174,9 @@ class Calls(Interp):
             use_contract = True
         if use_contract:
             return self.apply_contract(c, self.bind_params(fi, args, kwargs), fi.fid)
+        if c is None and any((isinstance(d, ast.Name) and d.id == "abstractmethod") or (isinstance(d, ast.Attribute) and d.attr == "abstractmethod") for d in fi.node.decorator_list):
+            # an interface method: its body says nothing about what implementations do; without a contract the call is outside the proof
+            raise Unsupported("call of abstract method %s without a contract" % fi.fid)
         return self.inline(fi, args, kwargs)
 
     def inline(self, fi, args, kwargs):
@@ -266,10 +269,20 @@ class Calls(Interp):
                     if isinstance(v, VCont):
                         loc = ("f", base.oid, f)
                         self.st.conts[loc] = self.havoc_cont(self.st.conts[loc], "m_%s_%s" % (base.cls, f))
-                    elif isinstance(v, VEnt) or (isinstance(v, VOpt) and isinstance(v.val, VEnt)):
+                    elif isinstance(v, VEnt) or (isinstance(v, VOpt) and isinstance(v.val, VEnt) and not z3.is_true(z3.simplify(v.isnone))):
                         pass  # reference fields are not re-pointed by callees unless listed with their own fields
                     else:
-                        self.st.fields[(base.oid, f)] = self.havoc_value(v, "m_%s_%s" % (base.cls, f))
+                        fty = self.reg.entities[base.cls].get(f)
+                        inner = fty.inner if isinstance(fty, TOpt) else fty
+                        if isinstance(inner, TEnt):
+                            # an unset reference field the callee may fill: a fresh object of the declared class (allocated by the callee)
+                            self._ctr += 1
+                            self.st.fields[(base.oid, f)] = self.sym(fty, "m_%s_%s!%d" % (base.cls, f, self._ctr))
+                        elif v is VNone and fty is not None and not isinstance(fty, TObj):
+                            self._ctr += 1
+                            self.st.fields[(base.oid, f)] = self.sym(fty, "m_%s_%s!%d" % (base.cls, f, self._ctr))
+                        else:
+                            self.st.fields[(base.oid, f)] = self.havoc_value(v, "m_%s_%s" % (base.cls, f))
             elif isinstance(base, VObj):
                 ty, mut = self.reg.attrs[last]
                 arr = self.heap_arr(last, ty)
